@@ -23,11 +23,6 @@ pub fn vx_slice_read<'a>(rem: &mut &'a [u8], buf: &mut [u8]) -> (r: std::io::Res
     std::io::Read::read(rem, buf)
 }
 
-#[verifier::external_body]
-pub fn vx_io_error() -> (r: std::io::Error) {
-    std::io::Error::new(std::io::ErrorKind::Other, "error")
-}
-
 //@ extract src/utils/lowmarkbufreader.rs struct LowMarkBufReader
 //@ end
 
@@ -141,9 +136,6 @@ impl<R: VRead> LowMarkBufReader<R> {
 //@ end
 
 //@ extract src/utils/lowmarkbufreader.rs LowMarkBufReader::seek
-//@   sub R6 `std::io::Error::new( std::io::ErrorKind::Other, format!( "LowMarkBufReader unsupported Seek {:?} < abs_pos {}", pos, self.abs_pos ), )` => `vx_io_error()`
-//@   sub R6 `std::io::Error::new( std::io::ErrorKind::Other, format!( "LowMarkBufReader unsupported Seek {:?} >= abs_pos {} +cap {}", pos, self.abs_pos, self.cap ), )` => `vx_io_error()`
-//@   sub R6 `std::io::Error::new( std::io::ErrorKind::Other, format!( "LowMarkBufReader unsupported Seek {:?} at abs_pos {}", pos, self.abs_pos ), )` => `vx_io_error()`
 //@   spec
 //@|    requires old(self).wf(),
 //@|    ensures
